@@ -181,6 +181,74 @@ def run (ctx):
              "`%s` reaches %s via %s, where `%s` applies ord() to the elements of a bytes object (ints in Python 3): TypeError for any request with a non-empty body - "
              "the handler dies before answering and the request gets no reply" % (norm(c)[:40], hit[1].qual, " -> ".join(hit[0]), norm(hit[2])), (swmod, c), 'D2')
   ctx.stat('eager calls on the request object followed', n_eager)
+  # ... and the printing methods (`show`) a handler evaluates eagerly - also those of the sub-objects it prints (`self.match.show()`) -
+  # are total on values off the wire: no lookup `TABLE[self.<field>]` in a name table (KeyError for a value the table does not list),
+  # and what is concatenated into the text is text: a formatter handed to a field printer returns str on every path
+  def definitely_str (e, fnode, depth=0):
+    if isinstance(e, ast.Constant): return isinstance(e.value, str)
+    if isinstance(e, ast.JoinedStr): return True
+    if isinstance(e, ast.IfExp): return definitely_str(e.body, fnode, depth) and definitely_str(e.orelse, fnode, depth)
+    if isinstance(e, ast.BinOp) and isinstance(e.op, ast.Mod) and definitely_str(e.left, fnode, depth): return True
+    if isinstance(e, ast.BinOp) and isinstance(e.op, ast.Add): return definitely_str(e.left, fnode, depth) or definitely_str(e.right, fnode, depth)
+    if isinstance(e, ast.Call):
+      nm_ = call_name(e)
+      if nm_ in ('str', 'repr', 'hex', 'oct', 'bin', 'format', 'join', 'dpid_to_str', 'dpidToStr', 'hexdump'): return True
+      tgt_ = None
+      if isinstance(e.func, ast.Name):
+        for x_ in ast.walk(fnode):
+          if isinstance(x_, ast.FunctionDef) and x_.name == e.func.id and x_ is not fnode: tgt_ = x_
+        if tgt_ is None:
+          r_ = lofm.lookup(e.func.id)
+          if hasattr(r_, 'node') and isinstance(getattr(r_, 'node', None), ast.FunctionDef): tgt_ = r_.node
+      if tgt_ is not None and depth < 3:
+        rs_ = [r_ for r_ in q.returns_of(tgt_) if r_.value is not None]
+        return bool(rs_) and all(definitely_str(r_.value, tgt_, depth + 1) for r_ in rs_)
+    return None if isinstance(e, (ast.Name, ast.Attribute, ast.Subscript, ast.Call)) else False
+  shown = set(); n_show = 0
+  for mname, h in sorted(handlers.items()):
+    mcls = [m for m in msgs if m.name == mname][0].cls
+    req = h.params[1] if len(h.params) > 1 else None
+    if req is None: continue
+    if not any(isinstance(c.func, ast.Attribute) and norm(c.func.value) == req and c.func.attr == 'show' for c in calls_in(h.node)): continue
+    work = [mcls]
+    while work:
+      k_ = work.pop()
+      sf_ = k_.find_method('show')
+      if sf_ is None or sf_.qual in shown: continue
+      shown.add(sf_.qual); n_show += 1; ctx.analysed(sf_)
+      for x_ in ast.walk(sf_.node):
+        # sub-objects printed through their own show(): self.<attr>.show(...)
+        if isinstance(x_, ast.Call) and isinstance(x_.func, ast.Attribute) and x_.func.attr == 'show' and isinstance(x_.func.value, ast.Attribute) and norm(x_.func.value.value) == 'self':
+          k2_ = lofm.classes.get('ofp_' + x_.func.value.attr)
+          if k2_ is not None: work.append(k2_)
+        if isinstance(x_, ast.Subscript) and isinstance(x_.ctx, ast.Load) and isinstance(x_.value, ast.Name) and not isinstance(x_.slice, ast.Slice) \
+           and any(isinstance(a_, ast.Attribute) and norm(a_.value) == 'self' for a_ in ast.walk(x_.slice)) and not q.reaching_assign(sf_.node, x_.value.id) and x_.value.id not in sf_.params:
+          gs2_ = q.cfg_of(sf_); sn_ = q.enclosing_stmt_node(gs2_, x_)
+          fs_ = q.fact_strs(gs2_, sn_) if sn_ is not None else []
+          guarded = any((' in %s' % x_.value.id) in f_ and 'not in' not in f_ for f_ in fs_) or (sn_ is not None and any(h_.ast.type is None or any(kk_ in norm(h_.ast.type) for kk_ in ('KeyError', 'LookupError', 'Exception')) for h_ in gs2_.handlers_for(sn_)))
+          ctx.ob('R-CONTAIN', sf_, "printing a request cannot fail: `%s`" % norm(x_)[:40], guarded, "guarded" if guarded else
+                 "%s evaluates `%s.show()` eagerly (as a log argument) before it acts on the request; `%s` raises KeyError for a field value the table does not list - such a request is neither carried out nor answered with an error"
+                 % (h.qual, req, norm(x_)[:50]), (lofm, x_), 'D6')
+      # formatters passed to a field printer: append(<field>, <formatter>)
+      for c_ in [x_ for x_ in ast.walk(sf_.node) if isinstance(x_, ast.Call) and isinstance(x_.func, ast.Name) and len(x_.args) == 2 and isinstance(x_.args[1], ast.Name)]:
+        fm_ = c_.args[1].id
+        tgt_ = next((x_ for x_ in ast.walk(sf_.node) if isinstance(x_, ast.FunctionDef) and x_.name == fm_), None)
+        if tgt_ is None:
+          r_ = lofm.lookup(fm_); tgt_ = r_.node if hasattr(r_, 'node') and isinstance(getattr(r_, 'node', None), ast.FunctionDef) else None
+        if tgt_ is None: continue
+        def alts_ (e_):
+          return alts_(e_.body) + alts_(e_.orelse) if isinstance(e_, ast.IfExp) else [e_]
+        class _R(object):
+          def __init__ (self, v, st): self.value = v; self.lineno = st.lineno; self.col_offset = st.col_offset
+        rs_ = [_R(a_, r_) for r_ in q.returns_of(tgt_) if r_.value is not None for a_ in alts_(r_.value)]
+        verdicts = [definitely_str(r_.value, sf_.node) for r_ in rs_]
+        # only a formatter with at least one definitely-str return and one bare value (a parameter handed back) is a definite mix
+        bare = [r_ for r_, v_ in zip(rs_, verdicts) if v_ is None and isinstance(r_.value, ast.Name) and r_.value.id in [a_.arg for a_ in tgt_.args.args]]
+        if any(v_ is True for v_ in verdicts) and bare:
+          ctx.bad('R-BYTES', sf_, "field formatter `%s` returns text on every path" % fm_,
+                  "`%s` returns a string on one path and its argument unchanged (`return %s`) on another; the field printer concatenates the result to text: TypeError for an int field - %s evaluates `%s.show()` eagerly before acting, "
+                  "so such a request is neither carried out nor answered" % (fm_, norm(bare[0].value), h.qual, req), (lofm, bare[0]), 'D6')
+  ctx.stat('printing methods of requests followed', n_show)
 
   # the connection's send() encodes and writes at once: a reply queued as an object and encoded later would reflect
   # state changed by later requests of the same read (and a barrier reply could overtake earlier effects)
